@@ -356,7 +356,7 @@ fn plan_case(ctx: &Ctx, case: u64, out: &mut Out) {
                 ctx.replay(case, json!({"fault_position": nth, "errno": errno, "site": s, "plan": plan_json(&plan)})),
             );
         }
-        if out.samples.len() < 3 && nth % 41 == 7 {
+        if out.samples.len() < 3 && (nth % 41 == 7 || out.samples.is_empty()) {
             out.sample(json!({"case": case, "fault_position": nth, "site": site, "errno": errno, "plan_head": plan.ops.iter().take(14).map(|o| o.brief()).collect::<Vec<_>>(), "config": plan.conf.brief()}));
         }
     }
